@@ -83,7 +83,20 @@ let verify (compiled : string) (tables : string) : string =
       else begin
         let ninstr = List.fold_left (fun a (_, ws) -> a + (match decode ws with Some c -> List.length c | None -> 0)) 0 us in
         let nwords = List.fold_left (fun a (_, ws) -> a + List.length ws) 0 us in
-        Printf.sprintf "ok units=%d instrs=%d words=%d" (List.length us) ninstr nwords
+        (* opcode numbers used (first word of every instruction), for the coverage histogram *)
+        let ops = List.sort_uniq compare (List.concat (List.map (fun (_, ws) ->
+          match decode ws with
+          | Some c ->
+              let rec go c ws acc = (match c, ws with
+                | i :: c', w :: _ ->
+                    let n = List.length (enc_raw [i]) in
+                    let rec drop k l = if k = 0 then l else (match l with [] -> [] | _ :: t -> drop (k - 1) t) in
+                    go c' (drop n ws) (int_of_z w :: acc)
+                | _, _ -> acc) in
+              go c ws []
+          | None -> []) us)) in
+        Printf.sprintf "ok units=%d instrs=%d words=%d ops=%s" (List.length us) ninstr nwords
+          (String.concat "," (List.map string_of_int ops))
       end
 
 let handle = function
